@@ -42,6 +42,19 @@ struct CircCheck {
             for (size_t i = 0; i < want.size(); ++i) ++adv;
             if (adv.valid() || adv != pr.second) ctx.fail(OW, "circ-" + name + "-end", w + " end circulator != begin advanced past the last lap (max_laps=" + std::to_string(laps) + ")");
             // stepping backward undoes stepping forward
+            if (all && want.size() >= 3) {   // it + n, it += n, post-increment agree with n single steps; (it + n) - k undoes k of them
+                auto a = make(laps); auto b2 = make(laps);
+                size_t nsteps = std::min<size_t>(want.size() - 1, 3);
+                for (size_t i = 0; i < nsteps; ++i) ++a;
+                auto c = b2 + (int)nsteps;
+                if (c != a || c->idx() != a->idx()) ctx.fail(OW, "circ-" + name + "-arith", w + " operator+(" + std::to_string(nsteps) + ")");
+                auto d = make(laps); d += (int)nsteps;
+                if (d != a) ctx.fail(OW, "circ-" + name + "-arith", w + " operator+=");
+                auto e = make(laps); auto e0 = e++;
+                if (e0 != make(laps) || e->idx() != want[1]) ctx.fail(OW, "circ-" + name + "-arith", w + " post-increment");
+                auto f = c - 1;
+                if (f->idx() != want[nsteps - 1] || !f.valid()) ctx.fail(OW, "circ-" + name + "-arith", w + " operator-(1)");
+            }
             {   // stepping backward undoes stepping forward (two cursors in lock-step: some circulators are not copy-assignable)
                 auto it = make(laps);
                 auto nx = make(laps);
